@@ -224,7 +224,7 @@ def deep_case(draw):
 
 def parts():
     return [
-        Part("machines", check, strategy=case_st(60), budget={"quick": 1200, "thorough": 16000}),
+        Part("machines", check, strategy=case_st(60), budget={"quick": 1200, "thorough": 16000}, fuzz={"thorough": 4000}),
         Part("long_runs", check, strategy=case_st(250), budget={"quick": 100, "thorough": 8000}, shrink_budget=120),
         Part("deep_history", check, strategy=deep_case(), budget={"quick": 150, "thorough": 6000}, shrink_budget=120),
     ]
